@@ -204,13 +204,28 @@ Proof.
   eapply R_trans; [exact R1|]. eapply R_trans; [exact R2|exact S].
 Qed.
 
+Lemma post_send_w_R s s' r : post_send_w s = (s', r) -> R s s'.
+Proof.
+  unfold post_send_w. intros H. destruct (post_send_hs s) as [s1 r1] eqn:P. apply post_send_hs_R in P.
+  destruct r1 as [u|x| |]; try (inv H; exact P).
+  destruct (shutdown false s1) as [s2 e] eqn:S. apply shutdown_R in S. inv H. eapply R_trans; eauto.
+Qed.
+
+(* an exception leaving _send_post_handshake_msg has closed the connection *)
+Lemma post_send_w_exc s s' x : post_send_w s = (s', Exc x) -> closed s' = true.
+Proof.
+  unfold post_send_w. intros H. destruct (post_send_hs s) as [s1 r1] eqn:P.
+  destruct r1 as [u|y| |]; try discriminate.
+  destruct (shutdown false s1) as [s2 e] eqn:S. apply shutdown_spec in S. inv H. tauto.
+Qed.
+
 Lemma read_msg_R s s' r : read_msg s = (s', r) -> R s s'.
 Proof.
   unfold read_msg. intros H. destruct (get_msg CRead s) as [s1 r1] eqn:G. pose proof (get_msg_R _ _ _ _ G) as R1.
   destruct r1 as [i|x| |]; try (inv H; exact R1).
   destruct i as [d|l d|b|k]; try (inv H; exact R1).
   destruct k as [| |a|a]; try (inv H; exact R1).
-  - destruct (post_send_hs s1) as [s2 r2] eqn:P. apply post_send_hs_R in P.
+  - destruct (post_send_w s1) as [s2 r2] eqn:P. apply post_send_w_R in P.
     destruct r2; inv H; eapply R_trans; eauto.
   - destruct (sock_send [WHs 22; WHs 22; WHs 22] s1) as [s2 e] eqn:P. apply sock_send_R in P.
     inv H. eapply R_trans; eauto.
@@ -409,22 +424,25 @@ Proof.
 Qed.
 
 (* ---- post-handshake public calls ---------------------------------------------------------- *)
-Lemma post_outcome_R s p s' o : post_send_hs s = p -> post_outcome p = (s', o) -> R s s' /\ o <> OHsDone.
+Lemma post_outcome_R s p s' o : post_send_w s = p -> post_outcome p = (s', o) ->
+  R s s' /\ o <> OHsDone /\ (forall x, o = OExc x -> closed s' = true).
 Proof.
-  intros P H. destruct p as [s1 r]. apply post_send_hs_R in P. destruct r; inv H; (split; [exact P|discriminate]).
+  intros P H. destruct p as [s1 r]. pose proof (post_send_w_R _ _ _ P) as RR.
+  destruct r; inv H; (split; [exact RR|split; [discriminate|]]); intros y Y; try discriminate.
+  inv Y. eapply post_send_w_exc; eauto.
 Qed.
 
 Lemma do_keyupdate_R s s' o : do_keyupdate s = (s', o) -> R s s' /\ o <> OHsDone.
 Proof.
   unfold do_keyupdate. intros H. destruct (closed s); [inv H; split; [apply R_refl|discriminate]|].
   destruct (negb (tls13 s)); [inv H; split; [apply R_refl|discriminate]|].
-  eapply post_outcome_R; eauto.
+  destruct (post_outcome_R s _ s' o eq_refl H) as (A & B & _). auto.
 Qed.
 
 Lemma do_pha_R ok s s' o : do_pha ok s = (s', o) -> R s s' /\ o <> OHsDone.
 Proof.
   unfold do_pha. intros H. destruct (closed s || negb ok || negb (tls13 s)); [inv H; split; [apply R_refl|discriminate]|].
-  eapply post_outcome_R; eauto.
+  destruct (post_outcome_R s _ s' o eq_refl H) as (A & B & _). auto.
 Qed.
 
 Lemma do_heartbeat_R ok s s' o : do_heartbeat ok s = (s', o) -> R s s' /\ o <> OHsDone.
@@ -432,11 +450,30 @@ Proof.
   unfold do_heartbeat. intros H. destruct (closed s); [inv H; split; [apply R_refl|discriminate]|].
   destruct (negb ok); [inv H; split; [apply R_refl|discriminate]|].
   destruct (send_rec (WHs 24) s) as [s1 e] eqn:E. apply send_rec_R in E.
-  destruct e; inv H; (split; [exact E|discriminate]).
+  destruct e; [|inv H; split; [exact E|discriminate]].
+  apply raise_after_shutdown_spec in H. destruct H as (RR & _ & (y & ->)).
+  split; [eapply R_trans; eauto|discriminate].
 Qed.
 
 Definition post_call (ev : event) : Prop :=
   match ev with UKeyUpdate | UPha _ | UHeartbeat _ => True | _ => False end.
+
+(* the three public post-handshake calls: whatever they raise, except the caller errors raised
+   before anything is sent (XValue; state untouched), the connection is closed afterwards *)
+Lemma post_call_exc s ev s' x : post_call ev -> step s ev = (s', OExc x) ->
+  (x = XValue /\ s' = s) \/ closed s' = true.
+Proof.
+  intros PC H. destruct ev; cbn in PC; try contradiction; cbn [step] in H.
+  - unfold do_keyupdate in H. destruct (closed s) eqn:C; [inv H; auto|].
+    destruct (negb (tls13 s)); [inv H; auto|].
+    destruct (post_outcome_R s _ s' _ eq_refl H) as (_ & _ & K). right. eapply K; reflexivity.
+  - unfold do_pha in H. destruct (closed s || negb ok || negb (tls13 s)); [inv H; auto|].
+    destruct (post_outcome_R s _ s' _ eq_refl H) as (_ & _ & K). right. eapply K; reflexivity.
+  - unfold do_heartbeat in H. destruct (closed s) eqn:C; [inv H; auto|].
+    destruct (negb ok); [inv H; auto|].
+    destruct (send_rec (WHs 24) s) as [s1 e]. destruct e; [|discriminate].
+    apply raise_after_shutdown_spec in H. right. tauto.
+Qed.
 
 (* ---- whole steps ------------------------------------------------------------------------- *)
 Definition not_setsess (ev : event) : Prop := forall b, ev <> UHs (HSetSess b).
@@ -524,9 +561,12 @@ Proof.
 Qed.
 
 (* "If an exception is raised, the connection will have been automatically closed" *)
-Lemma exc_closes s ev s' x : inv s -> ~ post_call ev -> step s ev = (s', OExc x) -> closed s' = true.
+Lemma exc_closes s ev s' x : inv s -> (post_call ev -> x <> XValue) -> step s ev = (s', OExc x) -> closed s' = true.
 Proof.
-  intros I NP H. destruct ev; cbn in H; try (inv H; fail); try (exfalso; apply NP; exact Logic.I).
+  intros I NP H.
+  assert (post_call ev -> closed s' = true) as PCK.
+  { intros PC. destruct (post_call_exc _ _ _ _ PC H) as [(E & _)|K]; [exfalso; apply (NP PC); exact E|exact K]. }
+  destruct ev; cbn in H; try (inv H; fail); try (apply PCK; exact Logic.I).
   - eapply do_read_exc; eauto.
   - eapply do_write_exc; eauto.
   - eapply do_close_exc; eauto.
@@ -867,6 +907,34 @@ Proof.
         destruct (send_error 10 (set_inq q s)) as [s1 x] eqn:A. inv H. eapply SE; eauto.
 Qed.
 
+Lemma post_send_hs_facts s s' r : post_send_hs s = (s', r) ->
+  match r with
+  | Val _ => closed s' = closed s /\ inq s' = inq s
+  | Exc (XRemote d) => exists l rest, inq s = IAlert l d :: rest
+  | _ => True
+  end.
+Proof.
+  unfold post_send_hs. intros H. destruct (send_rec (WHs 22) s) as [s2 e] eqn:E.
+  pose proof (send_rec_core _ _ _ _ E) as ((C2 & _) & I2 & _).
+  destruct e as [z|]; [|inv H; auto].
+  unfold recv_item in H. rewrite I2 in H. destruct (inq s) as [|i q] eqn:Q.
+  - unfold no_input in H. destruct (negb (sock_open s2)); [inv H; exact I|]. destruct (rxe s2); inv H; exact I.
+  - destruct (shutdown false (set_inq q s2)) as [s3 e'] eqn:S. inv H.
+    destruct e'; [exact I|]. destruct i; try exact I. eauto.
+Qed.
+
+Lemma post_send_w_facts s s' r : post_send_w s = (s', r) ->
+  match r with
+  | Val _ => closed s' = closed s /\ inq s' = inq s
+  | Exc (XRemote d) => exists l rest, inq s = IAlert l d :: rest
+  | _ => True
+  end.
+Proof.
+  unfold post_send_w. intros H. destruct (post_send_hs s) as [s1 r1] eqn:P. apply post_send_hs_facts in P.
+  destruct r1 as [u|x| |]; try (inv H; exact P).
+  destruct (shutdown false s1) as [s2 e] eqn:S. inv H. destruct e; [exact I|]. exact P.
+Qed.
+
 Lemma read_msg_facts s s' r : read_msg s = (s', r) ->
   match r with
   | Val _ => closed s' = closed s /\ incl (inq s') (inq s)
@@ -879,15 +947,10 @@ Proof.
   destruct r1 as [i|x| |]; try (inv H; exact G).
   destruct i as [d|l d|b|k]; try (inv H; exact G).
   destruct k as [| |a|a]; try (inv H; exact G); destruct G as (C1 & INC).
-  - unfold post_send_hs in H. destruct (send_rec (WHs 22) s1) as [s2 e] eqn:E.
-    pose proof (send_rec_core _ _ _ _ E) as ((C2 & _) & I2 & _).
-    destruct e as [z|].
-    + unfold recv_item in H. destruct (inq s2) as [|i q] eqn:Q.
-      * unfold no_input in H. destruct (negb (sock_open s2)); [inv H; exact I|]. destruct (rxe s2); inv H; exact I.
-      * destruct (shutdown false (set_inq q s2)) as [s3 e'] eqn:S. inv H.
-        destruct e'; [exact I|]. destruct i; try exact I.
-        exists lvl. apply INC. rewrite <- I2. left. reflexivity.
-    + inv H. split; [congruence|]. rewrite I2. exact INC.
+  - destruct (post_send_w s1) as [s2 r2] eqn:P. apply post_send_w_facts in P.
+    destruct r2 as [u|x| |]; inv H; try exact I.
+    + destruct P as (C2 & I2). split; [congruence|]. rewrite I2. exact INC.
+    + destruct x; try exact I. destruct P as (l & rest & Q). exists l. apply INC. rewrite Q. left. reflexivity.
   - destruct (sock_send [WHs 22; WHs 22; WHs 22] s1) as [s2 e] eqn:E.
     pose proof (sock_send_core _ _ _ _ E) as ((C2 & _) & I2 & _).
     inv H. destruct e; [exact I|]. split; [congruence|]. rewrite I2. exact INC.
@@ -1248,6 +1311,14 @@ Proof.
     split; [discriminate|]. rewrite S. cbn [inq set_inq]. rewrite <- I1. cbn. lia.
 Qed.
 
+Lemma post_send_w_len s s' r : post_send_w s = (s', r) -> r <> Fuel /\ (length (inq s') <= length (inq s))%nat.
+Proof.
+  unfold post_send_w. intros H. destruct (post_send_hs s) as [s1 r1] eqn:P. apply post_send_hs_len in P.
+  destruct r1 as [u|x| |]; try (inv H; exact P).
+  destruct (shutdown false s1) as [s2 e] eqn:S. apply shutdown_inq in S. inv H.
+  split; [discriminate|]. rewrite S. tauto.
+Qed.
+
 Lemma read_msg_len s s' r : read_msg s = (s', r) ->
   r <> Fuel /\ (length (inq s') <= length (inq s))%nat /\
   match r with
@@ -1261,7 +1332,7 @@ Proof.
   destruct r1 as [i|x| |]; try (inv H; auto; fail).
   destruct i as [d|l d|b|k]; try (inv H; auto; fail).
   destruct k as [| |a|a]; try (inv H; auto; fail).
-  - destruct (post_send_hs s1) as [s2 r2] eqn:P. apply post_send_hs_len in P. destruct P as (NF2 & LE2).
+  - destruct (post_send_w s1) as [s2 r2] eqn:P. apply post_send_w_len in P. destruct P as (NF2 & LE2).
     destruct r2 as [u|x| |]; inv H; try (split; [discriminate|split; [lia|]]; auto; fail).
     + split; [discriminate|]. split; [lia|lia].
     + split; [discriminate|]. split; [lia|]. destruct x; auto; lia.
@@ -1340,13 +1411,13 @@ Proof.
     + inv E; discriminate.
     + inv E; discriminate.
   - unfold do_keyupdate. destruct (closed s); [cbn; discriminate|]. destruct (negb (tls13 s)); [cbn; discriminate|].
-    destruct (post_send_hs s) as [s1 r] eqn:P. apply post_send_hs_len in P. destruct P as (NF & _).
+    destruct (post_send_w s) as [s1 r] eqn:P. apply post_send_w_len in P. destruct P as (NF & _).
     destruct r; cbn; try discriminate. congruence.
   - unfold do_pha. destruct (closed s || negb ok || negb (tls13 s)); [cbn; discriminate|].
-    destruct (post_send_hs s) as [s1 r] eqn:P. apply post_send_hs_len in P. destruct P as (NF & _).
+    destruct (post_send_w s) as [s1 r] eqn:P. apply post_send_w_len in P. destruct P as (NF & _).
     destruct r; cbn; try discriminate. congruence.
-  - unfold do_heartbeat. destruct (closed s); [cbn; discriminate|]. destruct (negb ok); [cbn; discriminate|].
-    destruct (send_rec (WHs 24) s) as [s1 e]. destruct e; cbn; discriminate.
+  - unfold do_heartbeat, raise_after_shutdown. destruct (closed s); [cbn; discriminate|]. destruct (negb ok); [cbn; discriminate|].
+    destruct (send_rec (WHs 24) s) as [s1 e]. destruct e; [destruct (shutdown false s1)|]; cbn; discriminate.
   - destruct (_ && _); cbn; discriminate.
   - destruct (rx_open s); cbn; discriminate.
   - destruct (rx_open s); cbn; discriminate.
@@ -1354,20 +1425,19 @@ Proof.
 Qed.
 
 (* ---- transport faults at the public post-handshake calls ----------------------------------- *)
-(* send_keyupdate_request / request_post_handshake_auth with the send direction dead: the
-   look-for-alert branch of _sendMsgThroughSocket runs with no wrapper around it *)
+(* the bare look-for-alert branch with the send direction dead *)
 Lemma post_send_fault s e : closed s = false -> wq s = [] -> bufw s = false -> tx_dead s e ->
   match inq s with
   | [] => match rxe s with
           | RxOpen => post_send_hs s = (s, Blk)
-          | RxEof => post_send_hs s = (s, Exc XAbrupt)       (* raised, but nothing closed the connection *)
-          | RxErr e' => post_send_hs s = (s, Exc (XSock e'))  (* the same *)
+          | RxEof => post_send_hs s = (s, Exc XAbrupt)
+          | RxErr e' => post_send_hs s = (s, Exc (XSock e'))
           end
   | IAlert l d :: _ =>
-      exists s', post_send_hs s = (s', Exc (XRemote d)) /\ closed s' = true /\
+      exists s', post_send_hs s = (s', Exc (XRemote d)) /\ closed s' = true /\ wq s' = [] /\
                  sess s' = option_map (fun _ => false) (sess s)
   | _ :: _ =>
-      exists s', post_send_hs s = (s', Exc (XSock e)) /\ closed s' = true /\
+      exists s', post_send_hs s = (s', Exc (XSock e)) /\ closed s' = true /\ wq s' = [] /\
                  sess s' = option_map (fun _ => false) (sess s)
   end.
 Proof.
@@ -1380,96 +1450,88 @@ Proof.
     destruct i as [d|l d|b|k]; exists s2; auto.
 Qed.
 
-Lemma keyupdate_fault s e : closed s = false -> tls13 s = true -> wq s = [] -> bufw s = false -> tx_dead s e ->
-  match inq s with
-  | [] => match rxe s with
-          | RxOpen => step s UKeyUpdate = (s, OBlocked)
-          | RxEof => step s UKeyUpdate = (s, OExc XAbrupt)
-          | RxErr e' => step s UKeyUpdate = (s, OExc (XSock e'))
-          end
-  | IAlert l d :: _ =>
-      exists s', step s UKeyUpdate = (s', OExc (XRemote d)) /\ closed s' = true /\
-                 sess s' = option_map (fun _ => false) (sess s)
-  | _ :: _ =>
-      exists s', step s UKeyUpdate = (s', OExc (XSock e)) /\ closed s' = true /\
-                 sess s' = option_map (fun _ => false) (sess s)
+Lemma shutdown_off s : wq s = [] -> exists s', shutdown false s = (s', None) /\ closed s' = true /\
+  sess s' = option_map (fun _ => false) (sess s).
+Proof.
+  intros Q. destruct (shutdown false s) as [s' e] eqn:S.
+  pose proof (shutdown_spec _ _ _ _ S) as (C & _ & _ & _ & _ & _ & _ & _ & SE & QQ & _).
+  destruct (QQ Q) as (-> & _). exists s'. auto.
+Qed.
+
+(* _send_post_handshake_msg with the transport dead (sends fail for good; a record is waiting or
+   the receive side has ended): the exception is the abrupt-close / socket error, or the peer's
+   alert when one was waiting; the connection is closed and the session not resumable *)
+Lemma post_send_w_fault s e : closed s = false -> wq s = [] -> bufw s = false -> tx_dead s e ->
+  (inq s <> [] \/ rxe s <> RxOpen) ->
+  exists s' x, post_send_w s = (s', Exc x) /\ closed s' = true /\
+    sess s' = option_map (fun _ => false) (sess s) /\
+    (fault_exn x \/ exists l d rest, inq s = IAlert l d :: rest /\ x = XRemote d).
+Proof.
+  intros C Q B T NE. pose proof (post_send_fault s e C Q B T) as K. unfold post_send_w, fault_exn.
+  destruct (inq s) as [|i rest] eqn:I.
+  - destruct (rxe s) eqn:RX; [destruct NE; congruence| |]; rewrite K;
+      destruct (shutdown_off s Q) as (s' & -> & C' & SE); eexists _, _; repeat split; eauto.
+  - assert (forall s1 x, post_send_hs s = (s1, Exc x) -> closed s1 = true -> wq s1 = [] ->
+            sess s1 = option_map (fun _ => false) (sess s) ->
+            exists s' , (let '(s2, e0) := shutdown false s1 in (s2, @Exc unit (match e0 with Some z => XSock z | None => x end))) = (s', Exc x) /\
+                        closed s' = true /\ sess s' = option_map (fun _ => false) (sess s)) as W.
+    { intros s1 x _ _ Q1 SE1. destruct (shutdown_off s1 Q1) as (s' & -> & C' & SE). exists s'.
+      repeat split; auto. rewrite SE, SE1. apply off_off. }
+    destruct i as [d|l d|b|k]; destruct K as (s1 & P & C1 & Q1 & SE1); rewrite P;
+      destruct (W s1 _ P C1 Q1 SE1) as (s' & E & C' & SE); rewrite E; eexists _, _; repeat split; eauto 10.
+Qed.
+
+(* FULL statement for the three public post-handshake calls: the transport is dead; the call
+   raises the abrupt-close / socket error (or the peer's alert that was waiting), the connection
+   is closed, the session not resumable *)
+Definition applicable (ev : event) (s : st) : Prop :=
+  match ev with
+  | UKeyUpdate | UPha true => tls13 s = true
+  | UHeartbeat true => True
+  | _ => False
   end.
+
+Lemma post_call_fault s e ev : applicable ev s -> closed s = false -> wq s = [] -> bufw s = false -> tx_dead s e ->
+  (inq s <> [] \/ rxe s <> RxOpen) ->
+  exists s' x, step s ev = (s', OExc x) /\ closed s' = true /\
+    sess s' = option_map (fun _ => false) (sess s) /\
+    (fault_exn x \/ exists l d rest, inq s = IAlert l d :: rest /\ x = XRemote d).
 Proof.
-  intros C T13 Q B T. cbn [step]. unfold do_keyupdate. rewrite C, T13. cbn [negb].
-  pose proof (post_send_fault s e C Q B T) as K.
-  destruct (inq s) as [|i rest].
-  - destruct (rxe s); rewrite K; reflexivity.
-  - destruct i as [d|l d|b|k]; destruct K as (s' & -> & K); exists s'; auto.
+  intros A C Q B T NE. destruct ev as [| | | | | | | | |[|]|[|]| | | |]; cbn in A; try contradiction; cbn [step].
+  - unfold do_keyupdate. rewrite C, A. cbn [negb].
+    destruct (post_send_w_fault s e C Q B T NE) as (s' & x & -> & K). exists s', x. split; [reflexivity|exact K].
+  - unfold do_pha. rewrite C, A. cbn [negb orb].
+    destruct (post_send_w_fault s e C Q B T NE) as (s' & x & -> & K). exists s', x. split; [reflexivity|exact K].
+  - unfold do_heartbeat. rewrite C. cbn [negb]. rewrite (send_rec_dead _ _ _ B T).
+    destruct (raise_off (XSock e) s Q) as (s' & -> & C' & SE & _). exists s', (XSock e).
+    repeat split; auto. left. unfold fault_exn. eauto.
 Qed.
 
-Lemma pha_fault s e : closed s = false -> tls13 s = true -> wq s = [] -> bufw s = false -> tx_dead s e ->
-  match inq s with
-  | [] => match rxe s with
-          | RxOpen => step s (UPha true) = (s, OBlocked)
-          | RxEof => step s (UPha true) = (s, OExc XAbrupt)
-          | RxErr e' => step s (UPha true) = (s, OExc (XSock e'))
-          end
-  | IAlert l d :: _ =>
-      exists s', step s (UPha true) = (s', OExc (XRemote d)) /\ closed s' = true /\
-                 sess s' = option_map (fun _ => false) (sess s)
-  | _ :: _ =>
-      exists s', step s (UPha true) = (s', OExc (XSock e)) /\ closed s' = true /\
-                 sess s' = option_map (fun _ => false) (sess s)
-  end.
+(* half-open transport (only the send direction dead, nothing arrived): the call waits for the
+   peer's next record *)
+Lemma post_call_half_open s e : closed s = false -> tls13 s = true -> wq s = [] -> bufw s = false -> tx_dead s e ->
+  inq s = [] -> rxe s = RxOpen -> step s UKeyUpdate = (s, OBlocked) /\ step s (UPha true) = (s, OBlocked).
 Proof.
-  intros C T13 Q B T. cbn [step]. unfold do_pha. rewrite C, T13. cbn [negb orb].
-  pose proof (post_send_fault s e C Q B T) as K.
-  destruct (inq s) as [|i rest].
-  - destruct (rxe s); rewrite K; reflexivity.
-  - destruct i as [d|l d|b|k]; destruct K as (s' & -> & K); exists s'; auto.
+  intros C T13 Q B T I RX. pose proof (post_send_fault s e C Q B T) as K. rewrite I, RX in K.
+  cbn [step]. unfold do_keyupdate, do_pha, post_send_w. rewrite C, T13, K. cbn. auto.
 Qed.
 
-(* a heartbeat request is not a handshake record: the socket error is raised as it is *)
-Lemma heartbeat_fault s e : closed s = false -> bufw s = false -> tx_dead s e ->
-  step s (UHeartbeat true) = (s, OExc (XSock e)).
-Proof.
-  intros C B T. cbn [step]. unfold do_heartbeat. rewrite C. cbn [negb]. rewrite (send_rec_dead _ _ _ B T). reflexivity.
-Qed.
-
-(* Full statement: a transport failure at a public post-handshake call closes the connection. *)
-Definition post_handshake_fault_contained_full : Prop :=
-  forall s e ev, post_call ev -> closed s = false -> hs s = false -> tls13 s = true -> wq s = [] -> bufw s = false ->
-    tx_dead s e -> rxe s <> RxOpen ->
-    forall s' x, step s ev = (s', OExc x) -> x <> XValue -> closed s' = true.
-
-Definition est13 : st := mkst false false 1 (Some true) false true true false 16384 true false [] [] [] RxEof (Some (0, 32)) [].
-
-Lemma post_handshake_fault_contained_not_full : ~ post_handshake_fault_contained_full.
-Proof.
-  intros F.
-  assert (closed est13 = true) as X.
-  { apply (F est13 32 UKeyUpdate I eq_refl eq_refl eq_refl eq_refl eq_refl) with (x := XAbrupt).
-    - split; [reflexivity|]. exists 0. split; [reflexivity|]. intros Y; discriminate Y.
-    - discriminate.
-    - reflexivity.
-    - discriminate. }
-  discriminate X.
-Qed.
-
-(* the witnesses as histories from a fresh connection *)
+(* the histories that refuted the statement before /repo fa8f243: handshake, the transport dies,
+   the call raises -- now the connection is closed and the session not resumable *)
 Definition post_fault_script (ev : event) : list event :=
   [UHsStart; UHs (HSend 22); NIn (IHs false); UHs HRecv; UHs (HSetSess true); UHs HDone;
    NSendBreak 0 32; NEof; ev; UWrite [119]].
 
 Lemma keyupdate_fault_history :
   let '(s', os) := run (init false true true false 16384) (post_fault_script UKeyUpdate) in
-  os = [OStep; OStep; ONone; OStep; OStep; OHsDone; ONone; ONone; OExc XAbrupt; OExc (XSock 32)] /\
-  sess s' = Some false /\ inv s'.
+  os = [OStep; OStep; ONone; OStep; OStep; OHsDone; ONone; ONone; OExc XAbrupt; OExc XClosed] /\
+  closed s' = true /\ sess s' = Some false.
 Proof. vm_compute. repeat split. Qed.
 
-Lemma keyupdate_fault_history_open :
-  let '(s', os) := run (init false true true false 16384) (firstn 9 (post_fault_script UKeyUpdate)) in
-  nth 8 os ONone = OExc XAbrupt /\ closed s' = false /\ sess s' = Some true.
-Proof. vm_compute. repeat split. Qed.
-
-Lemma heartbeat_fault_history_open :
-  let '(s', os) := run (init false true false false 16384) (firstn 9 (post_fault_script (UHeartbeat true))) in
-  nth 8 os ONone = OExc (XSock 32) /\ closed s' = false /\ sess s' = Some true.
+Lemma heartbeat_fault_history :
+  let '(s', os) := run (init false true false false 16384) (post_fault_script (UHeartbeat true)) in
+  os = [OStep; OStep; ONone; OStep; OStep; OHsDone; ONone; ONone; OExc (XSock 32); OExc XClosed] /\
+  closed s' = true /\ sess s' = Some false.
 Proof. vm_compute. repeat split. Qed.
 
 (* ---- the two histories that refuted the full statements before the fixes in /repo ---------- *)
